@@ -1811,8 +1811,7 @@ def rule_A13(repo: Repo) -> RuleResult:
     if it is None:
         raise AnalysisError("A13: BaseGroupBy.__iter__ not found")
     subs = [x for x in ast.walk(it.node) if isinstance(x, ast.Subscript) and isinstance(x.value, ast.Attribute) and x.value.attr == "iloc"]
-    if not subs:
-        raise AnalysisError("A13: positional row selection in BaseGroupBy.__iter__ not found")
+    # (no .iloc at all: A6 reports the label-based selection; the anchor itself is A6's)
     for x in subs:
         base = attr_chain(x.value.value)
         if base == ("self", "_obj"):
